@@ -1,5 +1,6 @@
 import ScVerif.Base.Line
 import ScVerif.C20.Publication
+import ScVerif.C20.PubConc
 import ScVerif.C20.Esc
 /-! Driver op of the Publication model: `pub.seq <op>…`; the clock starts at 1000 and ticks once per op. -/
 namespace ScVerif.C20.Publication
@@ -109,6 +110,49 @@ def handle? (toks : List String) : Option String :=
           | _, _ => st.lastGen
         { store := s', prev := prev', now := now, lastGen := lastGen', outs := (showCode code ++ "#" ++ showStore s') :: st.outs, bad := st.bad }) {}
     if st.bad then none else some (";".intercalate st.outs.reverse)
+  | "pub.conc" :: t0 :: init :: sched :: progs => do
+    -- init: a `create|…` token executed at t0; sched: `,`-separated events (`<n>` thread step, `+<d>` clock);
+    -- progs: one token per thread, calls separated by `;` (`update|…|mask|vref`, `ack|vref|receipt|reason|allow`);
+    -- vref: `~` none, `init` the created version, `bogus`, `hb:<body>` the version of the created content with that body
+    let t0 ← parseInt? t0
+    let p0 ← match init.splitOn "|" with
+      | ["create", id, body, mt, aud, receipt, reason] => (mkPub? id body mt aud receipt reason).map (computed Hc t0)
+      | _ => none
+    let vOf (vref : String) : String :=
+      if vref = "init" then p0.version
+      else if vref.startsWith "hb:" then mint Hc { p0 with body := decStr (vref.drop 3).toString }
+      else decStr vref
+    let parseCall? (tok : String) : Option PCall :=
+      match tok.splitOn "|" with
+      | ["update", id, body, mt, aud, receipt, reason, mask, vref] => do
+        let p ← mkPub? id body mt aud receipt reason
+        let mask ← parseMask? mask
+        pure (updateCall Hc p mask (vOf vref))
+      | ["ack", vref, receipt, reason, aa] => do
+        let receipt ← parseInt? receipt
+        let aa ← parseBool? aa
+        pure (ackCall (vOf vref) receipt (decStr reason) aa)
+      | _ => none
+    let progs ← progs.mapM (fun p => if p = "-" then some [] else (p.splitOn ";").mapM parseCall?)
+    let sched ← (if sched = "-" then some [] else (sched.splitOn ",").mapM (fun s =>
+      if s.startsWith "+" then (parseNat? (s.drop 1).toString).map Gau.Ev.tick else (parseNat? s).map Gau.Ev.step))
+    let c0 : Gau.Cfg Pub PErr := ⟨p0, t0, progs.map Gau.Thread.ofCalls⟩
+    let c1 := c0.run sched
+    let c2 := c1.run (Gau.drainSched c1.threads)
+    let showRes : Gau.Res Pub PErr → String
+      | .ok r => "ok=" ++ showPub r
+      | .err (.already r) => "ok=" ++ showPub r
+      | .err .failedPrecondition => "err:FailedPrecondition"
+      | .err .aborted => "err:Aborted"
+      | .aborted => "err:Aborted"
+    let trace : Gau.Res Pub PErr → String
+      | .err _ => "r"
+      | _ => "rcl"
+    let amp (xs : List String) : String := if xs.isEmpty then "-" else "&".intercalate xs
+    let showTh (th : Gau.Thread Pub PErr) : String :=
+      (if th.cur.isSome || !th.todo.isEmpty then "unfinished:" else "") ++
+      amp (th.results.reverse.map showRes) ++ "::" ++ amp (th.results.reverse.map trace)
+    pure (showPub c2.store ++ "#" ++ ";;".intercalate (c2.threads.map showTh))
   | _ => none
 
 end ScVerif.C20.Publication
